@@ -62,7 +62,9 @@ def cases(tier, seed):
     for i in range(nr):
         out.append({"id": "rule-%d" % i, "kind": "rule", "what": kinds[i % len(kinds)], "offset": [-1e-7, 1e-7, -1e-3, 1e-3, -0.3, 0.5][(i // len(kinds)) % 6],      # (the rule is evaluated with a relative tolerance of 1e-9 since the rounding repair)
                    
-                    "how": ["auto", "default", "class", "instance"][(i // 3) % 4], "seed": [seed, "rule", i], "cost": 3})
+                    "how": ["auto", "default", "class", "instance"][(i // 3) % 4], "seed": [seed, "rule", i], "cost": 3,
+                    # the number type of the radii (0-d arrays are what xarray .sel(...).values and np.array(0.5) give)
+                    "rform": ["float", "arr0_first", "np64", "arr0_all", "float"][(i // 2) % 5]})
     return out
 
 
@@ -236,7 +238,9 @@ def _run_rule(case):
         if not ok:
             nsp = 2; cs = cs[:2]; rs = rs[:2]; rmax = max(rs); cs[1] = np.array(c0) + u * target * rmax
         ns = [scat.cnum(scat.gen_index(rng, o, absorbing=False)) for _ in range(nsp)]
-        members = [Sphere(n=ns[j], r=rs[j], center=tuple(float(v) for v in cs[j])) for j in range(nsp)]
+        rform = case.get("rform", "float")
+        rf = lambda j: (np.array(rs[j]) if rform == "arr0_all" or (rform == "arr0_first" and j == 0) else np.float64(rs[j]) if rform == "np64" else rs[j])
+        members = [Sphere(n=ns[j], r=rf(j), center=tuple(float(v) for v in cs[j])) for j in range(nsp)]
         if what == "spheres_layered":
             members[0] = Sphere(n=(ns[0], ns[0] * 0.95), r=(rs[0] * 0.5, rs[0]), center=tuple(float(v) for v in cs[0]))
         s = Spheres(members, warn=False)
